@@ -10,6 +10,7 @@ Used in two ways:
     $VERIF_WORLD at import time -> children spawned by the runner see it too;
   * in process: runlib builds it and passes ``found_suites`` to Runner.
 """
+import io
 import json
 import os
 import signal
@@ -229,6 +230,9 @@ class World:
         self.tests = {}
         self.threads = ThreadBook(log)
         self.iter_count = {}
+        self.own_stream = {}     # stream name -> the test's own object
+        self.saved_stream = {}   # stream name -> what the test saved
+        self.tampered = set()    # streams the test put a saved object back into
         self.ns = {}
         self._build_layers()
         self._build_classes()
@@ -250,7 +254,9 @@ class World:
                 world._layer_writes(lspec, hook)
                 world._behave(behaviour, hook)
                 return
-            world.log.emit('L' + hook + 'Begin', l=actual_name)
+            world.log.emit('L' + hook + 'Begin', l=actual_name,
+                           out=stream_state('stdout'),
+                           err=stream_state('stderr'))
             world._layer_writes(lspec, hook)
             try:
                 world._behave(behaviour, hook)
@@ -381,7 +387,7 @@ class World:
         tspec = self.spec['tests'][tid]
         self.log.emit('T', t=tid, ph='cleanup%d' % i,
                       it=self.iter_count.get(tid, 0),
-                      out=stream_state('stdout'))
+                      out=stream_state('stdout'), err=stream_state('stderr'))
         self._actions(test, tspec['cleanups'][i])
 
     def _phase(self, test, phase):
@@ -389,20 +395,29 @@ class World:
         tspec = self.spec['tests'][tid]
         if phase == 'setUp':
             self.iter_count[tid] = self.iter_count.get(tid, 0) + 1
-            for i, cl in enumerate(tspec.get('cleanups', ())):
-                pass
+            self.own_stream.clear()
+            self.saved_stream.clear()
+            self.tampered.clear()
         self.log.emit('T', t=tid, ph=phase, it=self.iter_count.get(tid, 0),
-                      out=stream_state('stdout'))
+                      out=stream_state('stdout'), err=stream_state('stderr'))
         self._actions(test, tspec.get(phase, ()))
 
-    def _write(self, w):
+    def _write(self, w, tid=''):
         stream = getattr(sys, w.get('stream', 'stdout'))
         tok = w['tok']
         text = tok + ('\n' if w.get('nl', True) else '')
         via = w.get('via', 'text')
-        self.log.emit('Write', stream=w.get('stream', 'stdout'), via=via,
-                      tok=tok, nl=bool(w.get('nl', True)))
+        self.log.emit('Write', t=tid, stream=w.get('stream', 'stdout'), via=via,
+                      tok=tok, nl=bool(w.get('nl', True)),
+                      own=stream is self.own_stream.get(w.get('stream', 'stdout'), 0),
+                      dc=w.get('stream', 'stdout') in self.tampered)
+        if via == 'buffer' and getattr(stream, 'buffer', None) is None:
+            via = 'text'         # a stream without a binary layer (StringIO)
         if via == 'buffer':
+            try:
+                stream.flush()   # keep the text layer's pending output in order
+            except Exception:
+                pass
             stream.buffer.write(text.encode('utf-8'))
             try:
                 stream.buffer.flush()
@@ -428,9 +443,17 @@ class World:
             if a.get('only_parent') and is_child():
                 continue
             kind = a['a']
+            if self.spec.get('ref_mode') and kind == 'write':
+                # reference run: where the write sits relative to the result
+                # events is a fact about unittest; nothing is written
+                self.log.emit('Write', t=tid, stream=a.get('stream', 'stdout'),
+                              via=a.get('via', 'text'), tok=a['tok'],
+                              nl=bool(a.get('nl', True)),
+                              own=False,
+                              dc=a.get('stream', 'stdout') in self.tampered)
+                continue
             if self.spec.get('ref_mode') and kind in (
-                    'tstart', 'trelease', 'crash', 'signal', 'wait', 'sleep',
-                    'write'):
+                    'tstart', 'trelease', 'crash', 'signal', 'wait', 'sleep'):
                 continue
             if kind == 'ok':
                 continue
@@ -447,12 +470,31 @@ class World:
             elif kind == 'kbint':
                 raise KeyboardInterrupt()
             elif kind == 'write':
-                self._write(a)
+                self._write(a, tid)
+            elif kind == 'redirect':
+                # the test replaces a std stream with an object of its own
+                x = a.get('stream', 'stdout')
+                if x not in self.saved_stream:
+                    self.saved_stream[x] = getattr(sys, x)
+                    self.own_stream[x] = io.StringIO()
+                    if not self.spec.get('ref_mode'):
+                        setattr(sys, x, self.own_stream[x])
+                    self.log.emit('Redirect', t=tid, stream=x)
+            elif kind == 'unredirect':
+                x = a.get('stream', 'stdout')
+                if x in self.saved_stream:
+                    if not self.spec.get('ref_mode'):
+                        setattr(sys, x, self.saved_stream[x])
+                    del self.saved_stream[x]
+                    del self.own_stream[x]
+                    self.tampered.add(x)
+                    self.log.emit('Unredirect', t=tid, stream=x)
             elif kind == 'subtest':
                 with test.subTest(i=a.get('i', 0)):
                     self.log.emit('T', t=tid, ph='subtest%s' % a.get('i', 0),
                                   it=self.iter_count.get(tid, 0),
-                                  out=stream_state('stdout'))
+                                  out=stream_state('stdout'),
+                                  err=stream_state('stderr'))
                     self._actions(test, a.get('do', ()))
             elif kind == 'tstart':
                 self.threads.start(tid, a['name'], a.get('api', 'threading'),
